@@ -15,6 +15,9 @@ use std::collections::{BTreeMap, BTreeSet};
 pub enum H {
     Id(usize),
     Fake(String),
+    /// the handle string of a collection of the history with a small change (padded with a blank or a line break, in
+    /// upper case, one character short or long): a string that never was a handle
+    Near(usize, u8),
 }
 
 /// a value argument: a literal or the handle string of a collection of the history
@@ -102,6 +105,20 @@ impl Model {
         match h {
             H::Id(i) => self.slots.get(*i).map(|s| s.0.clone()).unwrap_or_else(|| "handle:neverexisted00000000".to_string()),
             H::Fake(f) => f.clone(),
+            H::Near(i, k) => {
+                let h = self.slots.get(*i).map(|s| s.0.clone()).unwrap_or_else(|| "handle:neverexisted00000000".to_string());
+                match k % 6 {
+                    0 => format!("{} ", h),
+                    1 => format!(" {}", h),
+                    2 => format!("{}\n", h),
+                    3 => {
+                        let u = h.to_uppercase();
+                        if u == h { format!("{}x", h) } else { u }
+                    }
+                    4 => h[..h.len() - 1].to_string(),
+                    _ => format!("{}x", h),
+                }
+            }
         }
     }
     fn resolve_v(&self, v: &V) -> String {
@@ -113,7 +130,7 @@ impl Model {
     fn coll(&mut self, h: &H) -> Option<&mut Coll> {
         match h {
             H::Id(i) => self.slots.get_mut(*i).and_then(|s| s.1.as_mut()),
-            H::Fake(_) => None,
+            H::Fake(_) | H::Near(_, _) => None,
         }
     }
     fn arr(&mut self, h: &H) -> Option<&mut Vec<String>> {
@@ -856,6 +873,8 @@ fn gen_v(rng: &mut Rng, n_slots: usize) -> V {
 fn gen_h(rng: &mut Rng, n_slots: usize) -> H {
     if n_slots == 0 || rng.chance(1, 12) {
         H::Fake(rng.pick(&FAKES).to_string())
+    } else if rng.chance(1, 14) {
+        H::Near(rng.usize(n_slots), rng.below(6) as u8)
     } else {
         H::Id(rng.usize(n_slots))
     }
